@@ -164,7 +164,7 @@ type simConn struct {
 	outPending int
 	writes     []outWrite
 	overflowed int
-	writeAfterClose int
+	lateWrites int // writes attempted after Close
 	decodes    []decodeRec
 	hSends     []hSend
 	hOthers    []hOther
@@ -182,18 +182,18 @@ type simConn struct {
 	readerDone bool
 }
 
-func (c *simConn) ID() uint64          { return uint64(c.k) }
-func (c *simConn) LocalAddr() string   { return c.lst.opts.Address }
-func (c *simConn) RemoteAddr() string  { return "c" + strconv.Itoa(c.k) }
-func connOfAddr(addr string) int       { n, _ := strconv.Atoi(strings.TrimPrefix(addr, "c")); return n }
-func listenerName(k int) string        { return "l" + strconv.Itoa(k) }
-func connOfListener(name string) int   { n, _ := strconv.Atoi(strings.TrimPrefix(name, "l")); return n }
+func (c *simConn) ID() uint64         { return uint64(c.k) }
+func (c *simConn) LocalAddr() string  { return c.lst.opts.Address }
+func (c *simConn) RemoteAddr() string { return "c" + strconv.Itoa(c.k) }
+func connOfAddr(addr string) int      { n, _ := strconv.Atoi(strings.TrimPrefix(addr, "c")); return n }
+func listenerName(k int) string       { return "l" + strconv.Itoa(k) }
+func connOfListener(name string) int  { n, _ := strconv.Atoi(strings.TrimPrefix(name, "l")); return n }
 
 func (c *simConn) Write(p []byte) error {
 	c.mu.Lock()
 	defer c.mu.Unlock()
 	if c.srvClosed {
-		c.writeAfterClose++
+		c.lateWrites++
 		return errConnClosed
 	}
 	if c.maxOut > 0 && c.outPending+len(p) > c.maxOut {
@@ -274,8 +274,8 @@ type tapAdapter struct {
 
 var _ protocol.DecodedFrameOwner = (*tapAdapter)(nil)
 
-func (a *tapAdapter) Name() string            { return a.inner.Name() }
-func (a *tapAdapter) OwnsDecodedFrames() bool { return a.inner.OwnsDecodedFrames() }
+func (a *tapAdapter) Name() string                    { return a.inner.Name() }
+func (a *tapAdapter) OwnsDecodedFrames() bool         { return a.inner.OwnsDecodedFrames() }
 func (a *tapAdapter) OnOpen(s session.Session) error  { return a.inner.OnOpen(s) }
 func (a *tapAdapter) OnClose(s session.Session) error { return a.inner.OnClose(s) }
 func (a *tapAdapter) Encode(s session.Session, f frame.Frame, m session.OutboundMeta) ([]byte, error) {
@@ -398,12 +398,15 @@ type client struct {
 	closeSent  bool
 	closeKind  string
 	nextSeq    uint64
-	connectSent bool
-	connectSeen bool
-	gotConnack  bool
-	connackOK   bool
 	stalled    bool
 	stalls     int
+
+	connectSent     bool
+	connectSeen     bool
+	gotConnack      bool
+	connackOK       bool
+	unsupportedSent bool
+
 	readWrites int // number of conn.writes fully consumed
 	readOff    int // bytes consumed of the next write
 	rbuf       []byte
@@ -424,9 +427,9 @@ type client struct {
 	closeWhy  string
 	closeStep int
 	pushes    int
+
 	decodeErrStep int
-	lastPushSeq uint64
-	ackSeen   int
+	lastPushSeq   uint64
 }
 
 func (cl *client) sends() []*sentFrame {
@@ -482,6 +485,7 @@ type gworld struct {
 	clients   []*client
 	readers   sync.WaitGroup
 	stamp     atomic.Uint64
+
 	inflightSend atomic.Int64
 
 	mu       sync.Mutex
